@@ -9,8 +9,8 @@ import (
 	"github.com/paulsonkoly/chess-3/board"
 	"github.com/paulsonkoly/chess-3/chess"
 	"github.com/paulsonkoly/chess-3/heur"
-	"github.com/paulsonkoly/chess-3/move"
 
+	"verif/harness/conv"
 	"verif/harness/ev"
 	"verif/harness/gen"
 	"verif/harness/ref"
@@ -171,7 +171,7 @@ func checkMove(r *ev.Run, lc *ev.Local, p *ref.Pos, b *board.Board, m ref.Move) 
 	seenFalse := false
 	firstFalse := 0
 	for _, t := range ths {
-		if heur.SEE(b, move.Move(m), chess.Score(t)) {
+		if heur.SEE(b, conv.M(m), chess.Score(t)) {
 			if seenFalse {
 				mono = false
 			}
@@ -262,7 +262,7 @@ func TestCheck(t *testing.T) {
 			if l.String() == w.Move {
 				fmt.Printf("replay: %s %s admissible balances %v\n", w.FEN, w.Move, seeRef(&p, l))
 				for t := -1000; t <= 1000; t += 100 {
-					fmt.Printf("  SEE(threshold %d)=%v\n", t, heur.SEE(b, move.Move(l), chess.Score(t)))
+					fmt.Printf("  SEE(threshold %d)=%v\n", t, heur.SEE(b, conv.M(l), chess.Score(t)))
 				}
 				checkMove(r, ev.NewLocal(), &p, b, l)
 			}
